@@ -1,3 +1,4 @@
+import os
 import re
 
 import facts
@@ -40,6 +41,24 @@ def _load_actions():
 def c20_static(tier):
     st = _load_actions()
     cov = {"launch_actions": st["coq"], "launch_actions_source": "gen/glbfacts launch on daemon/daemon.go func launch"}
+    rd = re.search(r"\(\* reading: (.*?) \*\)", st.get("raw", ""))
+    reading = rd.group(1) if rd else "?"
+    cov["launch_reading"] = reading
+    os.environ.pop("VERIF_C20_UNREADABLE", None)
+    if reading == "incomplete":
+        # Policy for shapes the extractor cannot READ (helpers it cannot follow, os.StartProcess, contexts …): nothing
+        # positively wrong was found, and the ordering the discipline protects (Notify registered before the daemon can
+        # call Done()) is what the forced schedule of the harness exercises. The harness is told to insist, at run time,
+        # that the forced schedule really ran on this tree (the pause took effect and Done() was entered during it);
+        # the model comparison is switched off (there is no trustworthy action list). The dynamic verdict decides.
+        _STATE["unreadable"] = True
+        _DRV_ARGS[:] = ["UNREADABLE"]
+        os.environ["VERIF_C20_UNREADABLE"] = "1"
+        note = ("launcher shape not readable; ordering covered by the forced schedule only (the harness checks at run time "
+                "that the pause hook took effect and Done() was entered during the pause)")
+        cov.update({"launch_shape_note": note, "notify_before_start": None, "well_formed": None})
+        print("NOTE property=C20 " + note)
+        return 1, 1, [], cov
     text = ("From Coq Require Import List String.\nImport ListNotations.\n"
             "From Glb Require Import Model.Daemon Proofs.DaemonP Properties.C20.\nOpen Scope string_scope.\n"
             "Definition launch_actions : list action := " + st["coq"] + ".\n"
@@ -72,6 +91,8 @@ def c20_static(tier):
                 "handshake_instance_assumptions": "Closed under the global context" if closed else out.strip()[-300:]})
     if not (nbs and wf):
         why = []
+        if reading.startswith("wrong: "):
+            why.append("READ AND WRONG: " + reading[len("wrong: "):])
         if not nbs:
             why.append("cmd.Start() is not preceded by signal.Notify (a daemon calling Done() early kills the launcher)")
         if not wf:
@@ -93,6 +114,16 @@ CLS = {"ok": "OOk", "run": "OErrRun", "stderr": "OErrStderr", "stdout": "OErrStd
 
 def c20_casesv(lines):
     st = _load_actions()
+    if _STATE.get("unreadable"):
+        # no trustworthy action list: only the specification is judged (same as the driver with UNREADABLE)
+        rows = []
+        for l in lines:
+            f = l.split()
+            b = ["true" if x == "1" else "false" for x in f[6:15]]
+            b[6], b[7] = b[7], b[6]
+            rows.append("v_spec (check_case [] %s%%N %s%%N (mkObs %s %s))" % (f[1], f[2], CLS.get(f[5], "OOther"), " ".join(b)))
+        return ("From Coq Require Import List NArith String.\nImport ListNotations.\nFrom Glb Require Import Model.Daemon Check.C20.\n"
+                "Open Scope string_scope.\nDefinition verdicts : list bool := [\n  " + ";\n  ".join(rows) + "].\nEval vm_compute in verdicts.\n")
     rows = []
     for l in lines:
         f = l.split()
@@ -175,6 +206,13 @@ CFG = dict(
                  "ONLY, not judged (the property is silent about output of the launcher program): a launcher that prints to stderr after "
                  "Run() makes Launch return that text as an error; a program that prints to stdout BEFORE Run() makes Launch return the "
                  "first four bytes of that output as the pid with a nil error (stats: observed_only)",
+                 "UNREADABLE LAUNCHER SHAPES: when the extractor can read func launch it decides (complete: the discipline is proved for "
+                 "the extracted list; wrong: Start before Notify, unbuffered channel, timer / default in the select, Stop before the "
+                 "select, no waiter, Done() signal not listened for or uncatchable => the obligation fails). When it cannot read the shape "
+                 "and found nothing wrong, a NOTE is printed and the forced schedule of the harness decides: the harness then requires at "
+                 "run time that the pause took effect (Launch >= pause) and that Done() was entered DURING the pause; the model comparison "
+                 "is off for that run. Any catchable signal is accepted as the hand-shake signal as long as signal.Notify listens for what "
+                 "Done() sends (the model calls it SIGINT)",
                  "the forced schedule depends on the verif hook: its presence is checked in the source (glbfacts) and by timing "
                  "(a successful Launch under a 200 ms pause cannot take less than 200 ms)",
                  "GO SIDE ONLY: the daemon's standard streams are outside Model/Daemon.v. That a daemon which writes to its stderr "
